@@ -161,18 +161,17 @@ theorem printRows_no_fault {conv : Nat → Option Bytes} {size : Nat} : ∀ (row
           simp only [h2, ite_true] at h
           exact ih _ f h
 
-theorem printUnicode_exact {conv : Nat → Option Bytes} {c : Cell} {e : Bytes} {n : Nat} (hA : AtFits cfg conv)
-    (he : encUnbounded cfg conv c = some e) (hn : e.length ≤ n) : printUnicode cfg conv (effUnicode c) n = some e := by
-  unfold encUnbounded at he
+theorem printUnicode_exactU {conv : Nat → Option Bytes} {u : Nat} {e : Bytes} {n : Nat} (hA : AtFits cfg conv)
+    (he : encU cfg conv u = some e) (hn : e.length ≤ n) : printUnicode cfg conv u n = some e := by
+  unfold encU at he
   unfold printUnicode firstTry spaceTry tooBig
-  simp only at he
-  cases hc : conv (effUnicode c) with
+  cases hc : conv u with
   | none =>
     simp only [hc] at he ⊢
     simp [he, hn]
   | some b0 =>
     simp only [hc] at he ⊢
-    cases hat : atSign cfg b0 (effUnicode c) with
+    cases hat : atSign cfg b0 u with
     | true =>
       simp only [hat, ite_true] at he
       by_cases hE : cfg.printE2big = true
@@ -185,6 +184,10 @@ theorem printUnicode_exact {conv : Nat → Option Bytes} {c : Cell} {e : Bytes} 
       cases he
       have hb : ¬ n < e.length := by omega
       simp [hn, hb]
+
+theorem printUnicode_exact {conv : Nat → Option Bytes} {c : Cell} {e : Bytes} {n : Nat} (hA : AtFits cfg conv)
+    (he : encUnbounded cfg conv c = some e) (hn : e.length ≤ n) : printUnicode cfg conv (effUnicode c) n = some e :=
+  printUnicode_exactU hA he hn
 
 theorem printCells_exact {conv : Nat → Option Bytes} {size : Nat} (hA : AtFits cfg conv) : ∀ (cs : List Cell) (p e : Bytes),
     rowText cfg conv cs = some e → p.length + e.length ≤ size → printCells cfg conv size cs p = some (p ++ e) := by
@@ -244,8 +247,7 @@ theorem printRows_exact {conv : Nat → Option Bytes} {size : Nat} (hA : AtFits 
 theorem printUnicode_sound {conv : Nat → Option Bytes} {c : Cell} {n : Nat} {bs : Bytes} (hE : cfg.printE2big = true)
     (h : printUnicode cfg conv (effUnicode c) n = some bs) : encUnbounded cfg conv c = some bs := by
   unfold printUnicode at h
-  unfold encUnbounded
-  simp only
+  unfold encUnbounded encU
   by_cases hT : tooBig conv (effUnicode c) n = true
   · simp [hE, hT] at h
   · simp only [hE, hT, Bool.and_false, Bool.false_eq_true, ite_false] at h
